@@ -165,7 +165,9 @@ def run_part(ctx, n_cases=None):
     # fields 8-10 (A, b, R, c, Q, get_routes) belong to C07 and are reported there
     mism = [(i, [t for t in tags if t not in (8, 9, 10)]) for i, tags in mism]
     mism = [(i, tags) for i, tags in mism if tags]
-    for idx, tags in mism[:3]:
+    if ctx.has_concrete():
+        mism = []                 # the breakage is already reported with a concrete failing input
+    for idx, tags in mism[:1]:
         case, out = cases[idx]
         model = ctx.coq_eval(S.HEADER, "match " + S.inst_term(case) +
                              " with Ok J => (vars J, fixed_items J, num_variables J) | Err _ => ([], [], 0%nat) end")
